@@ -102,8 +102,8 @@ func TestVerif_C03(t *testing.T) {
 		}
 		if key != "" {
 			res.hit(verifHit{Key: "C03:" + key + ":" + o.certType, Oracle: "certificate validity exceeds min(requested, 24h, authenticated+24h) or wraps",
-				What: fmt.Sprintf("duration=%q age=%ds type=%s cred=%s: %s (ValidAfter=%d ValidBefore=%d now=%d)", o.dur, o.t0-o.iat, o.certType, o.cred, what, o.va, o.vbU, o.t1),
-				Case: map[string]interface{}{"duration": o.dur, "age_s": o.t0 - o.iat, "type": o.certType, "cred": o.cred},
+				What:     fmt.Sprintf("duration=%q age=%ds type=%s cred=%s: %s (ValidAfter=%d ValidBefore=%d now=%d)", o.dur, o.t0-o.iat, o.certType, o.cred, what, o.va, o.vbU, o.t1),
+				Case:     map[string]interface{}{"duration": o.dur, "age_s": o.t0 - o.iat, "type": o.certType, "cred": o.cred},
 				Observed: map[string]interface{}{"not_before": o.va, "not_after": o.vbU, "status": o.status}})
 		}
 	}
